@@ -12,8 +12,9 @@ package eheap
 //@ func (*ExpiryHeap).Add
 //@   trusted
 //@   noframe
-//@   modifies gmap("items", eh)[]
+//@   modifies gmap("items", eh)[], gint("n", eh)
 //@   ensures has(gmap("items", eh), str(Item.GetID(item)))
+//@   ensures !old(has(gmap("items", eh), str(Item.GetID(item)))) ==> gint("n", eh) == old(gint("n", eh)) + 1
 //@   ensures forall q string :: q != str(Item.GetID(item)) ==> has(gmap("items", eh), q) == old(has(gmap("items", eh), q))
 //@ func (*ExpiryHeap).Has
 //@   trusted
@@ -22,14 +23,21 @@ package eheap
 //@ func (*ExpiryHeap).SetMin
 //@   trusted
 //@   noframe
-//@   modifies gmap("items", eh)[]
+//@   modifies gmap("items", eh)[], gint("n", eh)
 //@   ensures forall q string :: has(gmap("items", eh), q) ==> old(has(gmap("items", eh), q))
+//@   modifies gint("min", eh)
+//@   ensures gint("min", eh) == val
+//@   ensures gint("n", eh) == old(gint("n", eh)) - len(result) && gint("n", eh) >= 0
+//@   ensures forall q string :: old(has(gmap("items", eh), q)) && !has(gmap("items", eh), q) ==> (exists j int :: 0 <= j && j < len(result) && q == str(Item.GetID(result[j])))
+//@   ensures forall i int, j int :: 0 <= i && i < j && j < len(result) ==> str(Item.GetID(result[i])) != str(Item.GetID(result[j]))
 //@   ensures forall j int :: 0 <= j && j < len(result) ==> old(has(gmap("items", eh), str(Item.GetID(result[j])))) && !has(gmap("items", eh), str(Item.GetID(result[j])))
 //@ func (*ExpiryHeap).Remove
 //@   trusted
 //@   noframe
-//@   modifies gmap("items", eh)[]
+//@   modifies gmap("items", eh)[], gint("n", eh)
 //@   ensures result1 == old(has(gmap("items", eh), str(id)))
+//@   ensures result1 ==> gint("n", eh) == old(gint("n", eh)) - 1 && gint("n", eh) >= 0 && Item.GetID(result0) == id
+//@   ensures !result1 ==> gint("n", eh) == old(gint("n", eh))
 //@   ensures !has(gmap("items", eh), str(id))
 //@   ensures forall q string :: q != str(id) ==> has(gmap("items", eh), q) == old(has(gmap("items", eh), q))
 //@ func (*ExpiryHeap).Len
